@@ -123,8 +123,10 @@ func vmCondBroadcast(c *sync.Cond) {
 
 // the follower's socket: collects what the leader streams
 type vhStreamConn struct {
-	mu   sync.Mutex
-	got  []byte
+	s            *Server
+	unregistered bool // bytes were streamed while the leader did not list this follower (AOFSHRINK could not reach it)
+	mu           sync.Mutex
+	got          []byte
 	closed   bool
 	closedCh chan struct{}
 	once     sync.Once
@@ -143,6 +145,16 @@ func (c *vhStreamConn) Read(p []byte) (int, error) {
 }
 func (c *vhStreamConn) Write(p []byte) (int, error) {
 	vgate("cwrite")
+	// from the first byte on the follower is among the connections AOFSHRINK disconnects when it swaps the files
+	if vnative() {
+		c.s.mu.RLock()
+	}
+	if _, ok := c.s.aofconnM[net.Conn(c)]; !ok {
+		c.unregistered = true
+	}
+	if vnative() {
+		c.s.mu.RUnlock()
+	}
 	c.mu.Lock()
 	defer c.mu.Unlock()
 	c.got = append(c.got, p...)
@@ -205,7 +217,7 @@ func VH_C06_leader_stream() {
 	if vthorough() {
 		nw = 2
 	}
-	conn := &vhStreamConn{closedCh: make(chan struct{})}
+	conn := &vhStreamConn{closedCh: make(chan struct{}), s: s}
 	rd := NewPipelineReader(conn)
 	client := func() {
 		for i := 0; i < nw; i++ {
@@ -265,6 +277,7 @@ func VH_C06_leader_stream() {
 	vassert("C06.K3.stream_starts_with_ok", len(got) >= 5 && got[:5] == "+OK\r\n")
 	vassert("C06.K3.stream_is_the_log_from_the_resume_position", got[5:] == log[pos:])
 	vassert("C06.K3.handle_released", len(s.aofconnM) == 0)
+	vassert("C06.K3.follower_is_registered_while_it_is_streamed_to", !conn.unregistered)
 	_ = serr
 	if vnative() {
 		name := s.aof.Name()
